@@ -351,11 +351,9 @@ Definition update_must_succeed (pre : state) (pre_probes : list oprobe) (name : 
       (* a header of the client's revision, not older than the trusting period (1e12297, 072bc15) *)
       (fst (eh_height hd) =? fst (eh_height cur)) && negb (evm_expired (eh_time hd) trusting (now pre)) &&
       has_key (KHIdx (eh_hash cur) (snd (eh_height cur))) (VHeader cur) s && (eh_time cur <? eh_time hd) &&
-      cons_all_of_type ETH s &&
-      (* every consensus state has its root-main entry, so pruning cannot fail *)
-      forallb (fun kv => match kv with
-                         | (KCons hh, VCons cs) => match sget (KRootMain (hash32 (cs_root cs)) (snd hh)) s with Some (VRefHIdx _ _) => true | _ => false end
-                         | _ => true end) s
+      (* consistent content is enforced by the code (aa5560b, 1e12297): nothing about the root-main index is required
+         here.  A refusal because that index lost an entry (KNOWN_FINDINGS eth-revision-collision) IS a failure. *)
+      cons_all_of_type ETH s
   | _, _ => false
   end.
 
